@@ -99,7 +99,7 @@ func TestC01(t *testing.T) {
 		return
 	}
 	for _, f := range findings {
-		if rec.Known(f.ID) {
+		if rec.Known(f.ID) && len(f.Repro.Steps) > 0 {
 			rec.ReportKnown(f.ID, evalC01(f.Repro).Msg != "")
 		}
 	}
